@@ -208,7 +208,7 @@ func init() {
 					lf, _ := loadedField(f.Cond)
 					switch {
 					case lf != nil && (lf.Name() == "inFastRecovery" || lf.Name() == "acked"):
-					case IsCallOf(c.Fn("chunkPayloadData.abandoned"))(f.Cond):
+					case IsCallOf(c.Fn("chunkPayloadData.abandoned"))(f.Cond), isGiveUpCall(c, f.Cond):
 					case IsCallOf(c.Fn("sna32LT"))(f.Cond):
 					case isParamLoadOrPhi(f.Cond):
 					default:
